@@ -319,7 +319,8 @@ var c03Muts = []c03Mut{
 		return frag + "\n" + src
 	}},
 	{"mut-importalias", func(r *rng, src string) string {
-		p := pick(r, []string{`"lib"`, `"fmt"`, `"\400"`, `"\ud800"`, `"a/../lib"`, `""`, `"*"`, `"lib["`, `"cyc1"`, `"missing/pkg"`, "`lib`", `"bad"`, `"emptyp"`, `"./lib"`, `"lib/"`, `"\x00"`, `"conf"`})
+		p := pick(r, []string{`"lib"`, `"fmt"`, `"\400"`, `"\ud800"`, `"a/../lib"`, `""`, `"*"`, `"lib["`, `"cyc1"`, `"missing/pkg"`, "`lib`", `"bad"`, `"emptyp"`, `"./lib"`, `"lib/"`, `"\x00"`, `"conf"`,
+			`"."`, `".."`, `"/"`, `"/lib"`, `"lib//"`, `"lib\\"`, `"["`, `"[]"`, `"[a-"`, `"\\"`, `"a[b]"`, `"?"`, `"li*"`, `"vendor/ven"`, `"ven"`})
 		form := pick(r, []string{"import %s\n", "import (\n\tz %s\n)\n", "import (z %s)\n", "import (\n\t%s\n\tf \"fmt\"\n)\n", "import z %s\n"})
 		return fmt.Sprintf(form, p) + src
 	}},
